@@ -104,6 +104,15 @@ func run(p *program, st *stats) (fs []finding) {
 	for i := range p.Ops {
 		o := p.Ops[i]
 		v := views[o.View%len(views)]
+		if o.K == "restore" || o.K == "delsnap" {
+			// snapshots belong to the view they were taken through: use the next view that has one
+			for j := 0; j < len(views); j++ {
+				if w := views[(o.View+j)%len(views)]; len(w.snaps) > 0 {
+					v = w
+					break
+				}
+			}
+		}
 		key := []byte(o.Key)
 		if o.Pick > 0 {
 			if lst := v.model.Prefix(nil, -1, false); len(lst) > 0 {
@@ -112,7 +121,11 @@ func run(p *program, st *stats) (fs []finding) {
 		}
 		st.count("op_" + o.K)
 		if st != nil && st.resolved != nil {
-			st.resolvedView[i] = o.View % len(views)
+			for j, w := range views {
+				if w == v {
+					st.resolvedView[i] = j
+				}
+			}
 			if o.Pick > 0 {
 				st.resolved[i] = key
 			}
